@@ -938,6 +938,28 @@ class FinalizeComputeArray(FinalizeCompute, ArrayExpr):
     def __dask_keys__(self):
         return [self._name]
 
+    def __dask_graph__(self):
+        # A compute terminal: its one key is the bare name, not a block grid, so
+        # the ``RootAlias`` pin of ``_materialize`` (which aliases ``(name, *block)``
+        # keys) does not apply.  dask calls this on an already optimized terminal
+        # when an array is computed together with a non-expression collection;
+        # optimizing again may still rename it, so alias the bare name instead.
+        from dask import config
+        from dask._expr import Expr
+        from dask._task_spec import Alias
+        from dask.optimization import cull
+        from dask_array._materialize import _lower
+
+        optimize_graph = config.get("array.optimize-graph", True)
+        expr = _lower(self, optimize_graph)
+        if optimize_graph:
+            expr = expr.fuse()
+        dsk = Expr.__dask_graph__(expr)
+        if expr._name != self._name:
+            dsk[self._name] = Alias(self._name, expr._name)
+        dsk, _ = cull(dsk, [self._name])
+        return dsk
+
     def _layer(self):
         from dask_array._core_utils import finalize
 
